@@ -112,8 +112,8 @@ Proof. exact axial_moments. Qed.
 (* 7. transmission of ANY finite rule with positive weights w_i and non-negative path lengths L_i,
       T(mu) = sum w_i exp(-mu L_i) / V  (V > 0):  0 < T <= sum w / V  (= 1 when the weights sum to V),
       T(0) = sum w / V, T decreasing in mu; and the same for the map the model computes *)
-Theorem C18_transmission_in_unit_interval : forall (wl : list (R * R)) (V mu : R),
-  wl_ok wl -> wl <> [] -> 0 < V -> 0 <= mu -> Rsum (map fst wl) = V ->
+Theorem C18_transmission_in_unit_interval : forall (wl : list (R * R)) (V : R),
+  wl_ok wl -> wl <> [] -> 0 < V -> forall mu : R, 0 <= mu -> Rsum (map fst wl) = V ->
   0 < transmission RO mu wl V <= 1.
 Proof. exact transmission_in_unit_interval. Qed.
 Theorem C18_transmission_no_attenuation : forall (wl : list (R * R)) (V : R),
